@@ -76,7 +76,9 @@ PROPS = {
     "C03": {
         "subs": [sub("C03", "run_C03", "spec_C03", W_IMPORTS + ["Run.C03"], 400, 4000)],
         "run_modules": ["C03"],
-        "rule": "as C02 with up to 8 records per kind, kinds with zero records, terms linked to all records; IC compared bit-exactly "
+        "rule": "two Builder worlds at the u16 limit first (one kind brought to exactly 65 535 records: accepted; to 65 536: "
+                "calculate_information_content must return Err; thorough adds one more of each); then "
+                "as C02 with up to 8 records per kind, kinds with zero records, terms linked to all records; IC compared bit-exactly "
                 "(Flocq binary32 division and multiplication, runtime logf supplied as a table on exactly the quotients that occur)",
         "trust": ["Flocq 4.1 binary32 (IEEE-754) as the meaning of Rust f32 + - * /", "platform logf: oracle table produced by the harness with f32::ln"],
         "assumptions": ["logf is sampled, not specified: the float layer of C03 is partial (DESIGN.md §2.6)"],
